@@ -151,10 +151,13 @@ def findlabels_pre_310(code, opc):
 NO_LINE_NUMBER = -128
 
 
-def findlinestarts(code, dup_lines=False):
+def findlinestarts(code, dup_lines=False, unsigned_deltas=False):
     """Find the offsets in a byte code which are start of lines in the source.
 
     Generate pairs (offset, lineno) as described in Python/compile.c.
+
+    Before Python 3.6 the line increments of co_lnotab are unsigned bytes;
+    set `unsigned_deltas` for those versions.
     """
 
     if hasattr(code, "co_lines"):
@@ -203,14 +206,19 @@ def findlinestarts(code, dup_lines=False):
                         return
                     offset += byte_incr
                     pass
-                if line_delta >= 0x80:
-                    # line_deltas is an array of 8-bit *signed* integers
+                if line_delta >= 0x80 and not unsigned_deltas:
+                    # Since 3.6, line_deltas is an array of 8-bit *signed* integers
                     line_delta -= 0x100
                 lineno += line_delta
             if lineno != lastlineno or (dup_lines and 0 < byte_incr < 255):
                 yield offset, lineno
 
     return
+
+
+def findlinestarts_unsigned(code, dup_lines=False):
+    """findlinestarts() for bytecode before 3.6, where line increments are unsigned."""
+    return findlinestarts(code, dup_lines=dup_lines, unsigned_deltas=True)
 
 
 def instruction_size(op, opc):
